@@ -26,7 +26,7 @@ ASSUMPTIONS = ['scheduling points are entries of Python functions defined in the
 LEVEL_TEXT = ('History and schedule properties have no fixed expected value; every transition of every history up to the bound, every reachable state of the closure alphabet and '
               'every schedule up to the pre-emption bound is compared with a fresh-world / solo run of the same operation on the real code.')
 
-BUDGETS = {'sandwich': 600, 'level': 900, 'histories': 600, 'expand': 600, 'monitor': 600, 'free_running': 900, 'chain': 900}
+BUDGETS = {'kept': 600, 'sandwich': 600, 'level': 900, 'histories': 600, 'expand': 600, 'monitor': 600, 'free_running': 900, 'chain': 900}
 CFG1 = {'max_calc_step_size_feet': 0.25, 'cGravityConstant': -30.0, 'cMaximumDrop': -500.0, 'cMaxIterations': 2}     # K1 zeroes A, D, F, G; B and C end in ZeroFindingError; H in RangeError
 SHOTS = 'ABCDEFGH'
 
@@ -87,6 +87,10 @@ def run(op, w):
         if kind in ('fire', 'firex'):
             hr = calc_for(w, op[1]).fire(w['S'][op[2]], U.Yard(40), U.Yard(10), kind == 'firex')
             res = ['ok', traj_bits(hr.trajectory)]
+            if w.get('keep') is not None:
+                # 'kept' part: the caller keeps the result untouched; LATER computations must not change it (no buffer shared with the calculator)
+                w['keep'].append((op, hr.trajectory, res[1], hr))
+                return res
             # what the caller does with a RESULT is his business: it must not reach later computations (no shared / remembered result objects)
             del hr.trajectory[1:]
             for q in (hr.trajectory[0].distance, hr.trajectory[0].height, hr.trajectory[0].velocity):
@@ -95,6 +99,8 @@ def run(op, w):
         if kind == 'danger':
             r = calc_for(w, op[1]).fire(w['S'][op[2]], U.Yard(40), U.Yard(1), True)
             d = r.danger_space(U.Yard(20), U.Inch(5))
+            if w.get('keep') is not None:
+                w['keep'].append((op, r.trajectory, traj_bits(r.trajectory), (r, d)))
             return ['ok', bits(d.begin.distance.raw_value), bits(d.end.distance.raw_value)]
         if kind == 'edit':
             # the caller edits an argument object in place between computations
@@ -140,6 +146,9 @@ def run(op, w):
             return ['ok', 'replaced']
     except pb.RangeError as e:
         res = ['RangeError', e.reason, traj_bits(e.incomplete_trajectory)]
+        if w.get('keep') is not None:
+            w['keep'].append((op, e.incomplete_trajectory, res[2], e))
+            return res
         del e.incomplete_trajectory[:]
         return res
     except pb.ZeroFindingError as e:
@@ -379,7 +388,31 @@ def sandwich(cell):
     return {'v': out, 'n': n, 'states': n, 'transitions': n, 'traces': n, 'nt': cell, 'obs': sorted(outcomes)}
 
 
-PARTS = {'histories': histories, 'chain': chain, 'expand': expand, 'sandwich': sandwich}
+def kept(cell):
+    """results are values: whatever a computation returned (or attached to the error it raised) stays what it was when LATER computations run -
+    every ordered pair (first computation, second computation); the first result is kept untouched and read again after the second"""
+    i, = cell
+    ops = [o for o in all_ops() if o[0] in ('fire', 'firex', 'danger', 'zero', 'zerofar')]
+    first = ops[i]
+    out = []
+    n = 0
+    for second in ops:
+        H.restore_pristine()
+        w = world()
+        w['keep'] = []
+        run(first, w)
+        run(second, w)
+        n += 1
+        for op_, rows, digest_, _holder in w['keep'][:1]:
+            now = traj_bits(rows)
+            if now != digest_:
+                out.append({'msg': f'the rows returned by (or attached to the error of) {op_} changed when {second} ran afterwards ({len(digest_)} rows then, {len(now)} rows now)', 'key': None})
+        if len(out) >= 2:
+            break
+    return {'v': out, 'n': n, 'states': n, 'transitions': 2 * n, 'traces': n, 'nt': cell}
+
+
+PARTS = {'histories': histories, 'chain': chain, 'expand': expand, 'sandwich': sandwich, 'kept': kept}
 from mc.checks import c10_sched as _sched  # noqa: E402
 PARTS.update(_sched.PARTS)
 
@@ -387,7 +420,12 @@ PARTS.update(_sched.PARTS)
 def explore(ctx):
     """explicit-state BFS to closure (layer-synchronous, states deduplicated by the full-state fingerprint)"""
     from mc import core
+    import os
     core.fresh_world()
+    if os.environ.get('VERIF_C10_ONLY') == 'sched':
+        from mc.checks import c10_sched
+        ctx.cap('development run: schedule exploration only')
+        return c10_sched.explore(ctx)
     cap_states = 2000 if ctx.tier == 'quick' else 50000
     cap_s = 60 if ctx.tier == 'quick' else 1500
     t0 = time.time()
@@ -424,6 +462,9 @@ def explore(ctx):
 
 
 def plan(tier):
+    import os
+    if os.environ.get('VERIF_C10_ONLY') == 'sched':      # development knob (tools/try_e4.sh): schedule exploration only; never used by a registered command
+        return []
     ops = all_ops()
     n = len(ops)
     if tier == 'quick':
@@ -438,4 +479,5 @@ def plan(tier):
            [[ix(['firex', 'K0', 'D']), ix(['zero', 'K1', 'D']), ix(['fire', 'K0', 'D']), ix(['new_shot', 'D'])], reps],
            [[ix(['danger', 'K0', 'F']), ix(['zero', 'fresh', 'A']), ix(['fire', 'K0', 'A']), ix(['new_calc', 'K0'])], reps]]
     sw = [[e, k, k1] for e in AFFECTED for k in ('K0', 'K1') for k1 in ('zero', 'fire', 'firex', 'danger')]
-    return [('histories', hs), ('chain', cyc), ('sandwich', sw)]
+    n_compute = len([o for o in ops if o[0] in ('fire', 'firex', 'danger', 'zero', 'zerofar')])
+    return [('histories', hs), ('chain', cyc), ('sandwich', sw), ('kept', [[i] for i in range(n_compute)])]
